@@ -16,13 +16,22 @@ def run_tasks(tasks, name, nproc=None, hashseeds=None, split=True):
     jobs = []
     if split:
         n = max(1, min(nproc, len(tasks)))
+        size = (len(tasks) + n - 1) // n
         for i in range(n):
-            part = tasks[i::n]
+            part = tasks[i * size:(i + 1) * size]      # contiguous: related tasks (variants of one pair) stay in one process, in order
             seed = (hashseeds[i % len(hashseeds)] if hashseeds else 0)
             jobs.append((i, seed, part))
     else:
+        # every interpreter sees every task, but in a different order (reversed / rotated), so that a result that depends
+        # on what was asked before (a cache keyed too coarsely, shared mutable state) differs between the processes
         for i, seed in enumerate(hashseeds):
-            jobs.append((i, seed, tasks))
+            order = list(tasks)
+            if i % 2 == 1:
+                order.reverse()
+            if i % 4 >= 2:
+                k = (len(order) * (i + 1)) // (len(hashseeds) + 2) if order else 0
+                order = order[k:] + order[:k]
+            jobs.append((i, seed, order))
     procs = []
     for i, seed, part in jobs:
         fin = os.path.join(d, 'in%03d.ndjson' % i)
